@@ -36,6 +36,7 @@ def main():
     d = os.path.abspath(sys.argv[1])
     tier = "quick"
     confirm = True
+    prop_override = None
     args = sys.argv[2:]
     while args:
         a = args.pop(0)
@@ -43,8 +44,10 @@ def main():
             tier = args.pop(0)
         elif a == "--no-confirm":
             confirm = False
+        elif a == "--property":
+            prop_override = args.pop(0)
     meta = json.load(open(os.path.join(d, "meta.json")))
-    pid = meta["property"]
+    pid = prop_override or meta["property"]
     pkg = meta.get("demo_pkg")
     wt = "/tmp/wt-seed-%s-%d" % (os.path.basename(d), os.getpid())
     res = {"property": pid, "tier": tier, "at": time.strftime("%Y-%m-%dT%H:%M:%SZ", time.gmtime())}
@@ -122,7 +125,7 @@ def main():
     finally:
         sh("git -C /repo worktree remove --force %s" % wt)
         shutil.rmtree(wt, ignore_errors=True)
-    json.dump(res, open(os.path.join(d, "result.json"), "w"), indent=1)
+    json.dump(res, open(os.path.join(d, "result.json" if not prop_override else "result-%s.json" % pid), "w"), indent=1)
     print(json.dumps({k: res[k] for k in res if not k.endswith("_tail")}, indent=1))
     return 0 if res.get("detected") else 1
 
